@@ -111,14 +111,23 @@ impl Hash for It {
     }
 }
 
-/// Priority with a counting, fused `Ord`.  `PartialEq` is derived (not counted).
-#[derive(Debug, PartialEq, Eq, Serialize, Deserialize)]
-#[serde(transparent)]
-pub struct Pr(pub i64);
+/// Priority (value, tag) with a counting, fused `Ord` on the value.  The tag
+/// takes no part in `Ord` / `PartialEq` (not counted): priorities that tie
+/// stay distinguishable, so which of two tied priorities an operation
+/// returns or keeps is visible.
+#[derive(Debug, Serialize, Deserialize)]
+pub struct Pr(pub i64, pub i64);
+impl PartialEq for Pr {
+    #[inline]
+    fn eq(&self, o: &Pr) -> bool {
+        self.0 == o.0
+    }
+}
+impl Eq for Pr {}
 impl Clone for Pr {
     fn clone(&self) -> Pr {
         clone_tick();
-        Pr(self.0)
+        Pr(self.0, self.1)
     }
 }
 
